@@ -39,6 +39,8 @@ def make_set(interp, items):
     if isinstance(items, CSet):
         return set(items.s)
     from .sym import SList, FList
+    if hasattr(items, "vf_as_set"):
+        return items.vf_as_set(interp)
     if isinstance(items, (SList, FList)):
         return interp.ctx.set_of_list(interp, items)
     items = interp.iterate_concrete(items)
